@@ -501,6 +501,11 @@ impl State {
         ) = self.inner
         {
             if force || rotation_state.roll_state.rotation_necessary() {
+                // With some naming variants the current file is renamed before the writer is
+                // replaced; from then on it is a rotated file for a cleanup thread that is
+                // running concurrently. So nothing must be left in the buffer of the writer.
+                current_write.flush()?;
+
                 let infix = match rotation_state.naming_state {
                     NamingState::Timestamps {
                         current_timestamp: ref mut ts,
